@@ -4,6 +4,7 @@
 //  (1) free-form aggregate statements (queries.rs generator: 1-4 select items mixing keys, aggregates, transforms,
 //      expressions as arguments; WHERE / GROUP BY / HAVING in any order) through FileExecutor — correspondence with
 //      the Lean engine model, and the three-way comparison with the executable Lean specification (Spec/Agg.lean);
+//  (1b) the same over a JOIN (queried table t, joined table u): the statement sees the nested loop's rows;
 //  (2) typed statements built from a small AST over a table with TEXT / INT / REAL / BOOLEAN / TIMESTAMP columns,
 //      biased towards all-NULL argument groups, single-row groups, p ∈ {0, .5, .99, 1}, HAVING with hidden
 //      aggregates and transforms — for these an independent reference written here (from the property sentence,
@@ -213,7 +214,7 @@ fn gen_agg(rng: &mut Rng) -> AggK {
 }
 
 pub fn gen_typed_query(rng: &mut Rng) -> TypedQuery {
-    let group: Vec<usize> = match rng.below(6) { 0 => vec![], 1 | 2 => vec![K], 3 => vec![W], 4 => vec![K, W], _ => vec![*rng.pick(&[B, TS, S, IV])] };
+    let group: Vec<usize> = match rng.below(6) { 0 => vec![], 1 | 2 => vec![K], 3 => vec![W], 4 => vec![K, W], _ => vec![*rng.pick(&[B, TS, S, IV, R, R])] };
     let mut items = Vec::new();
     for _ in 0..rng.below(4) + 1 {
         if !group.is_empty() && rng.chance(1, 4) {
@@ -490,6 +491,40 @@ pub fn run(p: &Params) -> Run {
         // the case description travels with the case so that spec failures can be reported with the SQL text
         run.case_with_desc(case, result.wire(), tag, format!("query={} input={:?}", gq.text, lines));
     }
+    // ---- stream 1b: aggregate statements over a JOIN (the rows are the nested loop of C05), correspondence + Lean specification ----
+    let nj = p.n(600, 25_000);
+    let jpath = crate::runq::tmp_file(b"");
+    let jp = jpath.display().to_string();
+    let jopts = QueryOpts { allow_limit: false, allow_distinct: false, allow_join: true, aggregate: Some(true) };
+    for _ in 0..nj {
+        let sch = gen_schema(&mut rng);
+        let mut gq = gen_query(&mut rng, &sch, &jopts, &jp);
+        let mut tries = 0;
+        while !gq.joined && tries < 6 { gq = gen_query(&mut rng, &sch, &jopts, &jp); tries += 1; }
+        if !gq.joined { continue; }
+        let njl = rng.below(10);
+        let jlines: Vec<String> = (0..njl).map(|_| gen_join_line(&mut rng)).collect();
+        let joined_bytes = join_lines(&jlines);
+        std::fs::write(&jpath, &joined_bytes).unwrap();
+        let prepared = match prepare(&sch.defs, &gq.text) {
+            Ok(p) => p,
+            Err(e) => { run.count(&format!("rejected:{}", e.split(':').next().unwrap_or(""))); continue; }
+        };
+        let nlines = rng.below(14);
+        let null_pct = *rng.pick(&[5u64, 20, 50]);
+        let lines = gen_input(&mut rng, nlines, null_pct, false);
+        let files = vec![join_lines(&lines)];
+        let result = run_files(&prepared, &files);
+        let case = match batch_case(&prepared, &joined_bytes, &files, None) { Some(c) => c, None => continue };
+        run.count(&format!("join-status:{}", result.status));
+        run.oracle_checks += 1;
+        if result.status == "panic" {
+            run.fail(format!("query={} input={:?} joined={:?}", gq.text.replace(&jp, "J"), lines, jlines), "panic:aggregate", "aggregate run over a join panicked".to_owned());
+        }
+        let tag = format!("join|{}", agg_tag(&gq.text, &result));
+        run.case_with_desc(case, result.wire(), tag, format!("query={} input={:?} joined={:?}", gq.text.replace(&jp, "J"), lines, jlines));
+    }
+    let _ = std::fs::remove_file(&jpath);
     // ---- stream 2: typed statements, independent reference ----
     let m = p.n(1800, 80_000);
     let tables = parse_tables(C04_DEF).expect("C04 definition");
